@@ -159,7 +159,7 @@ class Stateless(abc.ABCMeta):
                 if p.kind in {inspect.Parameter.KEYWORD_ONLY, inspect.Parameter.VAR_KEYWORD}
             }
             # validating the kwonly params - the rest is expected to be *features
-            signature.replace(parameters=params).bind(**kwargs)
+            signature.replace(parameters=sorted(params, key=lambda p: p.kind)).bind(**kwargs)
             super().__init__(**kwargs)
 
         def apply(self, *features: flow.Features) -> flow.Result:
